@@ -157,25 +157,25 @@ theorem eofOrUnexpected_eq {β : Type} (rs : List Rn) : (eofOrUnexpected rs : PR
   | nil => rfl
   | cons r rest => exact errUnexpected_cons r rest
 
-theorem legacyRangeTerm_spec (rs : List Rn) :
-    legacyRangeTerm rs ≠ .oof ∧ legacyRangeTerm rs ≠ .panic ∧
-    ∀ t rest, legacyRangeTerm rs = .ok (t, rest) → rest.length ≤ rs.length := by
+theorem legacyRangeTerm_spec (cs : Bool) (rs : List Rn) :
+    legacyRangeTerm cs rs ≠ .oof ∧ legacyRangeTerm cs rs ≠ .panic ∧
+    ∀ t rest, legacyRangeTerm cs rs = .ok (t, rest) → rest.length ≤ rs.length := by
   unfold legacyRangeTerm
   simp only [eofOrUnexpected_eq]
   generalize hq : startsWithQuote rs = q
   have hparse :
-      (if q = true then parseQuotedTerms (newBuilder .single true) rs else parseTerms (newBuilder .single true) rs) ≠ .oof ∧
-      (if q = true then parseQuotedTerms (newBuilder .single true) rs else parseTerms (newBuilder .single true) rs) ≠ .panic ∧
-      ∀ s' rest, (if q = true then parseQuotedTerms (newBuilder .single true) rs else parseTerms (newBuilder .single true) rs)
+      (if q = true then parseQuotedTerms (newBuilder .single cs) rs else parseTerms (newBuilder .single cs) rs) ≠ .oof ∧
+      (if q = true then parseQuotedTerms (newBuilder .single cs) rs else parseTerms (newBuilder .single cs) rs) ≠ .panic ∧
+      ∀ s' rest, (if q = true then parseQuotedTerms (newBuilder .single cs) rs else parseTerms (newBuilder .single cs) rs)
         = .ok (s', rest) → rest.length ≤ rs.length := by
     cases q with
-    | false => simpa using parseTerms_spec (newBuilder .single true) rs
+    | false => simpa using parseTerms_spec (newBuilder .single cs) rs
     | true =>
       cases rs with
       | nil => simp [startsWithQuote] at hq
       | cons r rest =>
         have h34 : r.cp = 34 := by simpa [startsWithQuote] using hq
-        have := parseQuotedTerms_spec (newBuilder .single true) r rest h34
+        have := parseQuotedTerms_spec (newBuilder .single cs) r rest h34
         simp only [if_true]
         exact ⟨this.1, this.2.1, fun a b h => Nat.le_of_lt (this.2.2 a b h)⟩
   refine ⟨PRes.bind_ne_oof hparse.1 ?_, PRes.bind_ne_panic' hparse.2.1 ?_, ?_⟩
@@ -192,12 +192,12 @@ theorem legacyRangeTerm_spec (rs : List Rn) :
 
 theorem simpleTerm_nil : simpleTerm ([] : List Rn) = ([], []) := by simp [simpleTerm, simpleWord, skipSpaces]
 
-theorem legacyRange_spec (field : List Nat) (r : Rn) (rest : List Rn) (hb : r.cp = 91 ∨ r.cp = 123) :
-    legacyRange field (r :: rest) ≠ .oof ∧ legacyRange field (r :: rest) ≠ .panic ∧
-    ∀ l rest', legacyRange field (r :: rest) = .ok (l, rest') → rest'.length < (r :: rest).length := by
+theorem legacyRange_spec (field : List Nat) (cs : Bool) (r : Rn) (rest : List Rn) (hb : r.cp = 91 ∨ r.cp = 123) :
+    legacyRange field cs (r :: rest) ≠ .oof ∧ legacyRange field cs (r :: rest) ≠ .panic ∧
+    ∀ l rest', legacyRange field cs (r :: rest) = .ok (l, rest') → rest'.length < (r :: rest).length := by
   have hnb : ¬ (r.cp ≠ 91 ∧ r.cp ≠ 123) := by omega
   simp only [legacyRange, hnb, if_false]
-  have h1 := legacyRangeTerm_spec (skipSpaces rest)
+  have h1 := legacyRangeTerm_spec cs (skipSpaces rest)
   have hsk := skipSpaces_len rest
   -- what follows the first bound
   have key : ∀ p1 : Term × List Rn, p1.2.length ≤ rest.length →
@@ -208,7 +208,7 @@ theorem legacyRange_spec (field : List Nat) (r : Rn) (rest : List Rn) (hb : r.cp
             | [] => .err
             | _ :: _ => if to.1.isEmpty then errUnexpected p1.2 else .err)
          else
-           (legacyRangeTerm to.2).bind fun p2 =>
+           (legacyRangeTerm cs to.2).bind fun p2 =>
              match p2.2 with
              | [] => .err
              | c :: rest2 =>
@@ -230,7 +230,7 @@ theorem legacyRange_spec (field : List Nat) (r : Rn) (rest : List Rn) (hb : r.cp
           | nil => rw [hp, simpleTerm_nil] at hcons; simp at hcons
           | cons a b => rw [errUnexpected_cons]; simp
         · simp
-    · have h2 := legacyRangeTerm_spec (simpleTerm p1.2).2
+    · have h2 := legacyRangeTerm_spec cs (simpleTerm p1.2).2
       refine ⟨PRes.bind_ne_oof h2.1 ?_, PRes.bind_ne_panic' h2.2.1 ?_, ?_⟩
       · intro b _; split
         · simp
@@ -279,16 +279,16 @@ theorem legacyRange_spec (field : List Nat) (r : Rn) (rest : List Rn) (hb : r.cp
 
 /-! ## literals -/
 
-theorem legacyLiteral_spec (csConf : Bool) (field : List Nat) (t : FT) (rs : List Rn) :
-    legacyLiteral false csConf field t rs ≠ .oof ∧ legacyLiteral false csConf field t rs ≠ .panic ∧
-    ∀ ls rest, legacyLiteral false csConf field t rs = .ok (ls, rest) → rest.length ≤ rs.length ∧ ls ≠ [] := by
+theorem legacyLiteral_spec (rl csConf : Bool) (field : List Nat) (t : FT) (rs : List Rn) :
+    legacyLiteral false rl csConf field t rs ≠ .oof ∧ legacyLiteral false rl csConf field t rs ≠ .panic ∧
+    ∀ ls rest, legacyLiteral false rl csConf field t rs = .ok (ls, rest) → rest.length ≤ rs.length ∧ ls ≠ [] := by
   cases rs with
   | nil => simp [legacyLiteral]
   | cons r rest =>
     simp only [legacyLiteral]
     split
     · rename_i hb
-      have := legacyRange_spec field r rest hb
+      have := legacyRange_spec field (if rl then (if field = tokenExists then true else csConf) else true) r rest hb
       refine ⟨PRes.bind_ne_oof this.1 (fun _ _ => by simp), PRes.bind_ne_panic' this.2.1 (fun _ _ => by simp), ?_⟩
       intro ls rest' h
       obtain ⟨p, hp, h⟩ := PRes.bind_eq_ok.mp h
@@ -356,16 +356,16 @@ theorem legacyLiteral_spec (csConf : Bool) (field : List Nat) (t : FT) (rs : Lis
               simp only [List.map_eq_nil_iff] at hm
               simp [hm] at hne
 
-theorem legacyTokenQuery_spec (csConf : Bool) (field : List Nat) (t : FT) (rs : List Rn) :
-    legacyTokenQuery false csConf field t rs ≠ .oof ∧ legacyTokenQuery false csConf field t rs ≠ .panic ∧
-    ∀ ls rest, legacyTokenQuery false csConf field t rs = .ok (ls, rest) → rest.length < rs.length ∧ ls ≠ [] := by
+theorem legacyTokenQuery_spec (rl csConf : Bool) (field : List Nat) (t : FT) (rs : List Rn) :
+    legacyTokenQuery false rl csConf field t rs ≠ .oof ∧ legacyTokenQuery false rl csConf field t rs ≠ .panic ∧
+    ∀ ls rest, legacyTokenQuery false rl csConf field t rs = .ok (ls, rest) → rest.length < rs.length ∧ ls ≠ [] := by
   cases rs with
   | nil => simp [legacyTokenQuery]
   | cons r rest =>
     simp only [legacyTokenQuery]
     split
     · rw [errUnexpected_cons]; simp
-    · have := legacyLiteral_spec csConf field t (skipSpaces rest)
+    · have := legacyLiteral_spec rl csConf field t (skipSpaces rest)
       have hs := skipSpaces_len rest
       exact ⟨this.1, this.2.1, fun ls rest' h => by
         have := this.2.2 ls rest' h
@@ -479,7 +479,7 @@ theorem lgr_spec (c : Cfg) (hdp : c.dp = false) (mx : Option Nat) :
                 have hwl : 0 < (simpleTerm (r :: rest)).1.length := List.length_pos_iff.mpr hw
                 split
                 · simp
-                · have hq := legacyTokenQuery_spec c.cs (wordBytes (simpleTerm (r :: rest)).1)
+                · have hq := legacyTokenQuery_spec c.rangeLower c.cs (wordBytes (simpleTerm (r :: rest)).1)
                     (indexType c.mapping (wordBytes (simpleTerm (r :: rest)).1)) (simpleTerm (r :: rest)).2
                   rw [hdp]
                   refine ⟨PRes.bind_ne_oof hq.1 ?_, PRes.bind_ne_panic' hq.2.1 ?_, ?_⟩
